@@ -23,6 +23,10 @@ Reads (non-test code)
   every source file of minidump-unwind/src/**/*.rs and minidump-processor/src/*.rs (without *_unittest.rs) that CALLS a provider
   method (`.fill_symbol(` / `.walk_frame(` / `.get_file_path(` / `symbol_provider.stats()` / `.pending_stats()`), with the number of
   call sites: src_provider_users.
+  minidump-unwind/src/{amd64,arm,arm64,arm64_old,mips,x86}.rs   get_caller_by_cfi: exactly one provider call,
+                                        `args.symbol_provider.walk_frame(stack_walker.module, &mut stack_walker).await?` on a
+                                        `CfiStackWalker::from_ctx_and_args(ctx, args, ..)?` whose module is
+                                        `args.modules.module_at_address(args.callee_frame.instruction)?` (src_cfi, src_cfi_module).
 Aborts on anything it does not recognise (a second await in the per-thread future, another executor than join_all, a
 provider call outside the loop, a delegation that does something else)."""
 import importlib.util
@@ -246,6 +250,39 @@ def users(repo):
     return out
 
 
+ARCHS = ["amd64", "arm", "arm64", "arm64_old", "mips", "x86"]
+
+
+def cfi_ops(repo):
+    """per architecture: get_caller_by_cfi builds `stack_walker = CfiStackWalker::from_ctx_and_args(ctx, args, ..)?` and makes exactly
+    one provider call, `args.symbol_provider.walk_frame(stack_walker.module, &mut stack_walker).await?` (CfiWalkCalleeModule)"""
+    out = []
+    for a in ARCHS:
+        src = S.strip_comments(open(os.path.join(repo, "minidump-unwind/src/%s.rs" % a)).read())
+        fns = [b for n, b in S.fns_of(src) if n == "get_caller_by_cfi"]
+        if len(fns) != 1:
+            die("%s.rs: expected exactly one fn get_caller_by_cfi" % a)
+        b = S.squash(fns[0])
+        calls = [w for w in CALLS if w in b]
+        if (calls != [".walk_frame("] or b.count(".walk_frame(") != 1
+                or "args.symbol_provider.walk_frame(stack_walker.module,&mutstack_walker).await?;" not in b
+                or "letmutstack_walker=CfiStackWalker::from_ctx_and_args(ctx,args,callee_forwarded_regs)?;" not in b
+                or b.count("stack_walker.module") != 1 or "stack_walker.module=" in b):
+            die("%s.rs: get_caller_by_cfi is not `stack_walker = CfiStackWalker::from_ctx_and_args(..)?; "
+                "args.symbol_provider.walk_frame(stack_walker.module, &mut stack_walker).await?`" % a)
+        out.append((a, ["CfiWalkCalleeModule"]))
+    return out
+
+
+def cfi_module(unw):
+    """CfiStackWalker::from_ctx_and_args: module = args.modules.module_at_address(args.callee_frame.instruction)?"""
+    b = S.squash(S.fn_body(unw, r"fn\s+from_ctx_and_args\s*<P,\s*R>\s*\(", "CfiStackWalker::from_ctx_and_args"))
+    if ("letmodule=args.modules.module_at_address(args.callee_frame.instruction)?;" not in b or b.count("module_at_address") != 1
+            or not re.search(r"[{,]module,", b)):
+        die("CfiStackWalker::from_ctx_and_args does not take `module` from args.modules.module_at_address(args.callee_frame.instruction)")
+    return "CfiModuleOfCalleeInstruction"
+
+
 def main():
     if len(sys.argv) != 3:
         die("usage: c12_processor.py <repo> <outdir>")
@@ -258,6 +295,8 @@ def main():
     w_ops = walk_stack_ops(S.fn_body(unw, r"pub\s+async\s+fn\s+walk_stack\s*<", "walk_stack"))
     f_ops = fill_source_ops(S.fn_body(unw, r"async\s+fn\s+fill_source_line_info\s*<", "fill_source_line_info"))
     impl = provider_impl(mod)
+    cfi = cfi_ops(repo)
+    cfim = cfi_module(unw)
     us = users(repo)
 
     def lst(items):
@@ -278,6 +317,11 @@ def main():
     o.append("Definition src_fill_source : list wop := %s." % lst(f_ops))
     o.append("(* impl SymbolProvider for Symbolizer: methods that are the plain delegation to the inherent method of the same name *)")
     o.append("Definition src_provider : list pmeth := %s." % lst(impl))
+    o.append("(* get_caller_by_cfi of every architecture: the one provider call, and where CfiStackWalker takes its module from *)")
+    o.append("From Coq Require Import String.")
+    o.append("Definition src_cfi : list (string * list cfiop) := [" + "; ".join('(%s%%string, %s)' % (q(a), lst(ops)) for a, ops in cfi) + "].")
+    o.append("Definition src_cfi_x86 : list cfiop := %s." % lst(dict(cfi)["x86"]))
+    o.append("Definition src_cfi_module : cfimod := %s." % cfim)
     o.append("Definition src_walker : walker :=")
     o.append("  {| w_process := src_process; w_walk_stack := src_walk_stack; w_fill_source := src_fill_source; w_provider := src_provider |}.")
     o.append("(* every source file of minidump-unwind / minidump-processor (unit-test files excluded) with calls of provider methods, and how many *)")
